@@ -1,4 +1,133 @@
-/- C07 — half-gcd layer (placeholder, theorems follow). -/
-import Mpir.Model.Hgcd
+/-
+  C07 — the half-gcd layer (mpn/generic/hgcd_matrix.c, matrix22_mul.c, matrix22_mul1_inverse_vector.c,
+  hgcd_step.c, gcd_subdiv_step.c, hgcd.c, hgcd_reduce.c, hgcd_appr.c).
+  Property theorems only; they are about the value-level models of Mpir/Model/Hgcd.lean, which the
+  correspondence run compares with the real functions on their full output (ops of harness/ops_hgcd.c).
+  Notation: `MRel m x y X Y` is "det m = 1 and (X; Y) = m·(x; y)"; `mmul` the 2×2 product; `HM.Fits` "every
+  entry is below B^(M->n)"; all entries are naturals, so non-negativity is built in.
+-/
+import MpirProofs.Lemmas.HgcdMatrix2
 namespace Mpir.C07h
+open Mpir Mpir.Gcd Mpir.Hgcd
+
+/-! ## 1. Matrix arithmetic -/
+
+/-- mpn_matrix22_mul — the basecase and the Strassen-like schedule of mpn_matrix22_mul_strassen with all its
+    sign flags (r1s, r3s, s0s, t0s, u1s), stored carry limbs and dropped carries — returns the plain product
+    R·M of 2×2 matrices, for all entries r_i < B^rn, m_i < B^mn and every MATRIX22_STRASSEN_THRESHOLD.
+    In particular each ASSERT_NOCARRY of the C holds (the model reduces modulo the area size there). -/
+theorem matrix22_mul_correct (thr r0 r1 r2 r3 rn m0 m1 m2 m3 mn : Nat)
+    (h0 : r0 < B ^ rn) (h1 : r1 < B ^ rn) (h2 : r2 < B ^ rn) (h3 : r3 < B ^ rn)
+    (g0 : m0 < B ^ mn) (g1 : m1 < B ^ mn) (g2 : m2 < B ^ mn) (g3 : m3 < B ^ mn) :
+    matrix22Mul thr r0 r1 r2 r3 rn m0 m1 m2 m3 mn
+      = (r0 * m0 + r1 * m2, r0 * m1 + r1 * m3, r2 * m0 + r3 * m2, r2 * m1 + r3 * m3) ∧
+    strassen r0 r1 r2 r3 rn m0 m1 m2 m3 mn
+      = (r0 * m0 + r1 * m2, r0 * m1 + r1 * m3, r2 * m0 + r3 * m2, r2 * m1 + r3 * m3) := by
+  refine ⟨matrix22Mul_eq thr _ _ _ _ _ _ _ _ _ _ h0 h1 h2 h3 g0 g1 g2 g3, ?_⟩
+  rw [strassen_eq _ _ _ _ _ _ _ _ _ _ h0 h1 h2 h3 g0 g1 g2 g3]
+  unfold matrix22MulBase; simp only [Nat.add_comm]
+
+-- non-vacuity: r3 < r2, r1 < |r3 - r2| and m3 < m2 (negative intermediate values), one-limb operands
+example : strassen 5 2 (B - 1) 3 1 7 (B - 2) (B - 1) 1 1 =
+    (5 * 7 + 2 * (B - 1), 5 * (B - 2) + 2 * 1, (B - 1) * 7 + 3 * (B - 1), (B - 1) * (B - 2) + 3 * 1) := by decide +kernel
+example : matrix22Mul 1 5 2 (B - 1) 3 1 7 (B - 2) (B - 1) 1 1 = matrix22Mul 2 5 2 (B - 1) 3 1 7 (B - 2) (B - 1) 1 1 := by
+  decide +kernel
+
+/-- mpn_hgcd_matrix_init: the identity, M->n = 1, alloc = (n+1)/2 + 1. -/
+theorem hgcd_matrix_init_correct (n : Nat) :
+    (matInit n).toM1 = ⟨1, 0, 0, 1⟩ ∧ (matInit n).n = 1 ∧ (matInit n).alloc = (n + 1) / 2 + 1 ∧ (matInit n).Fits ∧
+    det1 (matInit n).toM1 := matInit_spec n
+
+example : matInit 7 = ⟨5, 1, 1, 0, 0, 1⟩ := by decide
+
+/-- mpn_hgcd_matrix_update_q (M, q, col) for a normalised q > 0 (both the qn = 1 branch with mpn_addmul_1
+    and the general branch with its normalisation loop): M := M·E, E = (1 0; q 1) for col = 0 and
+    (1 q; 0 1) for col = 1; hence det M = 1 is preserved and (a; b) = M·(x; y) becomes (a; b) = M'·(x'; y')
+    for the pair after the quotient step; the new M->n bounds every entry, M->n ≤ old + qn + 1, and for a
+    one-limb q: old ≤ M->n ≤ old + 1. -/
+theorem hgcd_matrix_update_q_correct (M : HM) (q col : Nat) (hq : 0 < q) (hcol : col ≤ 1) (hf : M.Fits) (hn : 1 ≤ M.n) :
+    (updateQ M q col).toM1 = mmul M.toM1 (elemQ q col) ∧ (updateQ M q col).Fits ∧
+    (updateQ M q col).alloc = M.alloc ∧ (updateQ M q col).n ≤ M.n + nlimbs q + 1 ∧
+    (nlimbs q = 1 → M.n ≤ (updateQ M q col).n ∧ (updateQ M q col).n ≤ M.n + 1) ∧
+    (det1 M.toM1 → det1 (updateQ M q col).toM1) ∧
+    (∀ x y a b, MRel M.toM1 x y a b →
+      (col = 1 → q * y ≤ x → MRel (updateQ M q col).toM1 (x - q * y) y a b) ∧
+      (col = 0 → q * x ≤ y → MRel (updateQ M q col).toM1 x (y - q * x) a b)) := by
+  obtain ⟨e, f, al, n1, n2⟩ := updateQ_spec M q col hq hcol hf hn
+  refine ⟨e, f, al, n1, n2, fun hd => by rw [e]; exact det1_mmul hd (det1_elemQ q col), fun x y a b hr => ⟨?_, ?_⟩⟩
+  · intro hc hle
+    rw [e, hc]
+    apply mrel_comp hr
+    refine ⟨by simp [elemQ], ?_, ?_⟩ <;> simp [elemQ] <;> omega
+  · intro hc hle
+    rw [e, hc]
+    apply mrel_comp hr
+    refine ⟨by simp [elemQ], ?_, ?_⟩ <;> simp [elemQ] <;> omega
+
+-- non-vacuity: a two-limb quotient, the column that is multiplied is shorter than M->n
+example : updateQ ⟨6, 2, 3, B + 1, 2, B⟩ (B + 5) 0 = ⟨6, 3, 3 + (B + 1) * (B + 5), B + 1, 2 + B * (B + 5), B⟩ := by
+  decide +kernel
+
+/-- mpn_hgcd_matrix_mul_1 (M, M1) for a matrix of limbs below 2^63 (what mpn_hgcd2 returns): M := M·M1
+    exactly (no carry limb lost in mpn_hgcd_mul_matrix1_vector), and M grows by at most one limb. -/
+theorem hgcd_matrix_mul_1_correct (M : HM) (m : M1) (hf : M.Fits) (hm : Msb0 m) :
+    (matMul1 M m).toM1 = mmul M.toM1 m ∧ (matMul1 M m).Fits ∧ (matMul1 M m).alloc = M.alloc ∧
+    M.n ≤ (matMul1 M m).n ∧ (matMul1 M m).n ≤ M.n + 1 ∧
+    (det1 M.toM1 → det1 m → det1 (matMul1 M m).toM1) := by
+  obtain ⟨e, f, al, n1, n2⟩ := matMul1_spec M m hf hm
+  exact ⟨e, f, al, n1, n2, fun h1 h2 => by rw [e]; exact det1_mmul h1 h2⟩
+
+example : matMul1 ⟨4, 1, B - 1, 2, 3, B - 4⟩ ⟨2 ^ 62, 2 ^ 62 - 1, 3, 3⟩ =
+    ⟨4, 2, (B - 1) * 2 ^ 62 + 2 * 3, (B - 1) * (2 ^ 62 - 1) + 2 * 3, 3 * 2 ^ 62 + (B - 4) * 3, 3 * (2 ^ 62 - 1) + (B - 4) * 3⟩ := by
+  decide +kernel
+
+/-- mpn_hgcd_matrix_mul (M, M1), any MATRIX22_STRASSEN_THRESHOLD: M := M·M1 exactly; the size after the
+    three conditional decrements bounds every entry and is at most M->n + M1->n + 1; determinant 1 and the
+    reconstruction (a; b) = M·(x; y), (x; y) = M1·(x'; y') ⇒ (a; b) = (M·M1)·(x'; y') are preserved. -/
+theorem hgcd_matrix_mul_correct (thr : Nat) (M M1 : HM) (hf : M.Fits) (hf1 : M1.Fits) :
+    (matMul thr M M1).toM1 = mmul M.toM1 M1.toM1 ∧ (matMul thr M M1).Fits ∧ (matMul thr M M1).alloc = M.alloc ∧
+    1 ≤ (matMul thr M M1).n ∧ (matMul thr M M1).n ≤ M.n + M1.n + 1 ∧
+    (det1 M.toM1 → det1 M1.toM1 → det1 (matMul thr M M1).toM1) ∧
+    (∀ x y a b x' y', MRel M.toM1 x y a b → MRel M1.toM1 x' y' x y → MRel (matMul thr M M1).toM1 x' y' a b) := by
+  obtain ⟨e, f, al, n1, n2⟩ := matMul_spec thr M M1 hf hf1
+  exact ⟨e, f, al, n1, n2, fun h1 h2 => by rw [e]; exact det1_mmul h1 h2,
+    fun x y a b x' y' h1 h2 => by rw [e]; exact mrel_comp h1 h2⟩
+
+example : matMul 1 ⟨9, 2, B + 3, 1, 2, 1⟩ ⟨9, 1, 5, 7, 2, 3⟩ = ⟨9, 2, (B + 3) * 5 + 2, (B + 3) * 7 + 3, 12, 17⟩ := by
+  decide +kernel
+
+/-- mpn_matrix22_mul1_inverse_vector: whenever (a; b) = M1·(x; y) with det M1 = 1 it returns exactly (x; y)
+    (the two high limbs the C only ASSERTs equal do cancel), and the returned size bounds both and is n or n-1,
+    n only if one of the results uses limb n-1. -/
+theorem matrix22_mul1_inverse_vector_correct (m : M1) (a b n x y : Nat) (h : MRel m x y a b)
+    (ha : a < B ^ n) (hb : b < B ^ n) (hn : 1 ≤ n) :
+    (mul1InvVec m a b n).1 = x ∧ (mul1InvVec m a b n).2.1 = y ∧
+    x < B ^ (mul1InvVec m a b n).2.2 ∧ y < B ^ (mul1InvVec m a b n).2.2 ∧
+    (mul1InvVec m a b n).2.2 ≤ n ∧ n - 1 ≤ (mul1InvVec m a b n).2.2 ∧
+    ((mul1InvVec m a b n).2.2 = n → B ^ (n - 1) ≤ x ∨ B ^ (n - 1) ≤ y) :=
+  mul1InvVec_spec m a b n x y h ha hb hn
+
+example : mul1InvVec ⟨3, 2, 4, 3⟩ (3 * (B + 7) + 2 * 5) (4 * (B + 7) + 3 * 5) 2 = (B + 7, 5, 2) := by decide +kernel
+
+/-- mpn_hgcd_matrix_adjust (M, n, a, b, p): the limbs of a, b from p on hold (s; t) = M⁻¹(S; T) for the
+    high parts S, T of the original numbers, and M's off-diagonal entries do not exceed s resp. t (which
+    the size contract of mpn_hgcd provides).  Then the result is EXACTLY M⁻¹ applied to the complete
+    original numbers B^p·S + (a mod B^p), B^p·T + (b mod B^p) — so the C's `ASSERT (cy <= ah)`,
+    `ASSERT (cy <= bh)` hold —, the returned size bounds both numbers, differs from n by at most one, is
+    tight when it did not shrink, and the results are at least B^p·(s - m01) resp. B^p·(t - m10). -/
+theorem hgcd_matrix_adjust_correct (M : HM) (n a b p S T : Nat) (hf : M.Fits) (hpn : p + M.n ≤ n)
+    (ha : a < B ^ n) (hb : b < B ^ n) (hn : 1 ≤ n)
+    (hr : MRel M.toM1 (a / B ^ p) (b / B ^ p) S T) (h01 : M.e01 ≤ a / B ^ p) (h10 : M.e10 ≤ b / B ^ p) :
+    MRel M.toM1 (matAdjust M n a b p).2.1 (matAdjust M n a b p).2.2 (B ^ p * S + a % B ^ p) (B ^ p * T + b % B ^ p) ∧
+    (matAdjust M n a b p).2.1 < B ^ (matAdjust M n a b p).1 ∧ (matAdjust M n a b p).2.2 < B ^ (matAdjust M n a b p).1 ∧
+    n - 1 ≤ (matAdjust M n a b p).1 ∧ (matAdjust M n a b p).1 ≤ n + 1 ∧
+    (n ≤ (matAdjust M n a b p).1 → B ^ ((matAdjust M n a b p).1 - 1) ≤ (matAdjust M n a b p).2.1 ∨
+        B ^ ((matAdjust M n a b p).1 - 1) ≤ (matAdjust M n a b p).2.2) ∧
+    B ^ p * (a / B ^ p - M.e01) ≤ (matAdjust M n a b p).2.1 ∧ B ^ p * (b / B ^ p - M.e10) ≤ (matAdjust M n a b p).2.2 :=
+  matAdjust_spec M n a b p S T hf hpn ha hb hn hr h01 h10
+
+-- non-vacuity: M = (3 2; 4 3), p = 1, reduced high parts (B+7; B+5), low limbs (11; B-1)
+example : matAdjust ⟨3, 1, 3, 2, 4, 3⟩ 3 (B * (B + 7) + 11) (B * (B + 5) + (B - 1)) 1
+    = (3, B * (B + 7) + 3 * 11 - 2 * (B - 1), B * (B + 5) + 3 * (B - 1) - 4 * 11) := by decide +kernel
+
 end Mpir.C07h
